@@ -5,4 +5,4 @@
 # under mktemp -d, removed at once. usage: refactor_regress.sh [jobs]
 cd /verif || exit 2
 J=${1:-4}
-ls -d refactors/*/ | xargs -P "$J" -I{} sh -c 'id=$(basename {}); out=$(./refeval.sh /verif/{}patch.diff 2>&1); if echo "$out" | grep -q "REF: all checks silent"; then echo "$id: silent"; elif [ -f {}EXPECTED_ALARM ]; then echo "$id: alarm (recorded limit, see EXPECTED_ALARM)"; else echo "$id: ALARM"; echo "$out" | grep "ALARM\|VIOLATION:\|UNDECIDED\|UNRESOLVED\|REF:" | cut -c1-250 | head -8; fi'
+ls -d refactors/*/ | xargs -P "$J" -I{} sh -c 'id=$(basename {}); if [ -f {}SUPERSEDED ]; then echo "$id: superseded (patch is against the tree before the fix commits; see SUPERSEDED)"; exit 0; fi; out=$(./refeval.sh /verif/{}patch.diff 2>&1); if echo "$out" | grep -q "REF: all checks silent"; then echo "$id: silent"; elif [ -f {}EXPECTED_ALARM ]; then echo "$id: alarm (recorded limit, see EXPECTED_ALARM)"; else echo "$id: ALARM"; echo "$out" | grep "ALARM\|VIOLATION:\|UNDECIDED\|UNRESOLVED\|REF:" | cut -c1-250 | head -8; fi'
